@@ -122,6 +122,7 @@ type FnCtx struct {
 	usedInlined map[string]bool
 	havocCalls map[string]int
 	watch    map[string]bool
+	globalAxioms []globalAxiom
 	interiorCell map[*ssa.Alloc]interiorVal
 	miscOrdOf map[ssa.Instruction]int   // source-order ordinals of append/copy/delete/map updates
 	miscOrdCC map[*ssa.CallCommon]int
